@@ -764,6 +764,36 @@ def r3_eval(ctx, repo):
     if not (r[0] == "raise" and r[1] == "ValueError"):
         fail("half-open range refused", "only 'deform min' set: update() -> "
              f"{r!r}, expected ValueError")
+    # a forced re-evaluation (apply_filter(force=[...])) of settings that
+    # did not change gives the same selection: swap of a reversed range,
+    # min == max, NaN handling are properties of every evaluation, not of
+    # the application in which the keys changed
+    for first in ("deform in [0.6, 0.2]", "deform in [0.2, 0.6]"):
+        for force in (["deform"], ["deform", "area_um"], []):
+            m = Model(repo)
+            m.update()
+            ops[first](m)
+            r1 = m.update()
+            r2 = m.update(force=list(force))
+            n_upd += 2
+            where = (f"after [{first}; applied; applied again with "
+                     f"force={force}]")
+            if r1[0] != "ok" or r2[0] != "ok":
+                fail("update evaluates", f"{where}: update() -> {r1!r}, "
+                     f"{r2!r}")
+                continue
+            want = m.spec()
+            got = {k: m.arr(k) for k in ("all", "box")}
+
+            def show(v):
+                return "".join("1" if x else "0" for x in v)
+            if got["box"] != want["box"] or got["all"] != want["all"]:
+                fail("box filters", f"{where}: box filter "
+                     f"{show(got['box'])}, selection {show(got['all'])}; "
+                     f"specification {show(want['box'])} / "
+                     f"{show(want['all'])}: a re-evaluation that was not "
+                     "caused by a change of the range's own keys treats "
+                     "the range differently")
     ctx.stat("R3 model histories", len(hists))
     ctx.stat("R3 model updates evaluated", n_upd)
     obs = [
